@@ -30,22 +30,6 @@ theorem raw_read (data : List UInt8) (p : Nat) (f : Bool) (n : Nat) (hn : 0 < n)
   have : ¬ (f = true ∧ n = 0) := by omega
   simp only [this, if_false]
 
-/-- closed form of io.ReadFull(r, buf[0:k]) on a byte source standing at `p` -/
-def rawFullRes (data : List UInt8) (p k : Nat) (q : Nat) : Res :=
-  { n := (slice data p k).length, bytes := slice data p k,
-    err := if (slice data p k).length ≥ k then none
-           else if (slice data p k).length = 0 then some .eof else some .unexpectedEOF,
-    q := q }
-
-/-- `sub` behaves like an io.Reader over `data`: a state related to byte position `pos` by `I` answers a
-    Read of n > 0 bytes with EOF at the end, and otherwise with 1..n bytes of the data at `pos` -/
-def ReadsAt (sub : Sub) (data : List UInt8) (I : Rd → Nat → Prop) : Prop :=
-  ∀ s pos n, 0 < n → I s pos →
-    ∃ s' r, sub s (.readB n) = ok (s', r) ∧ r.q = 0 ∧
-      ((data.length ≤ pos ∧ r.bytes = [] ∧ r.err = some .eof ∧ I s' pos) ∨
-       (pos < data.length ∧ ∃ k, 0 < k ∧ k ≤ n ∧ r.bytes = slice data pos k ∧ pos + k ≤ data.length ∧
-          r.err = none ∧ I s' (pos + k)))
-
 theorem slice_all_of_end {α} (l : List α) (p a m : Nat) (h : l.length ≤ p + a) (ham : a ≤ m) :
     slice l p m = slice l p a := by
   simp only [slice]
@@ -120,11 +104,34 @@ theorem ioReadFull_raw (d : Nat) (data : List UInt8) (p : Nat) (f : Bool) (k : N
   subst h2
   exact h1
 
-/-! ### the ahead cache -/
+/-- io.ReadFull over any io.Reader-like source -/
+theorem ioReadFull_gen (sub : Sub) (data : List UInt8) (I : Rd → Nat → Prop) (h : ReadsAt sub data I)
+    (b : Rd) (p k : Nat) (hI : I b p) :
+    ∃ b', ioReadFull sub b k = ok (b', rawFullRes data p k 0) ∧ I b' (p + (slice data p k).length) :=
+  ioReadFullLoop_spec sub data I h p k (k + 2) b [] 0 (by simp [slice]) (by simp) (by simp) (by simpa using hI)
 
-/-- the abstraction relation: an aheadreadseeker state over `raw data` whose logical offset is `pos` -/
-def AheadAt (data : List UInt8) (f : Bool) (m : Nat) (s : Rd) (pos : Nat) : Prop :=
-  ∃ p cache co, s = .ahead (.raw data p f) m pos cache co ∧ AheadInv data p pos cache co
+theorem raw_seek (data : List UInt8) (p : Nat) (f : Bool) (o : Int) (w : Whence) :
+    rawStep data p f (.seekB o w) =
+      ok (.raw data (if seekTarget data.length p o w < 0 then p else (seekTarget data.length p o w).toNat) f,
+          seekRes (seekTarget data.length p o w)) := by
+  simp only [rawStep, seekTarget, seekRes]
+  cases w <;> simp only <;> split <;> simp [*]
+
+/-- bytes.Reader / os.File -/
+theorem byteOK_raw (d : Nat) (data : List UInt8) (f : Bool) :
+    ByteOK (step (d + 1)) data (fun s pos => s = .raw data pos f) := by
+  refine ⟨readsAt_raw d data f, ?_⟩
+  intro s pos o w hI
+  subst hI
+  rw [step_raw, raw_seek]
+  exact ⟨_, rfl, rfl⟩
+
+/-! ### the ahead cache, over any io.ReadSeeker-like source -/
+
+/-- the abstraction relation: an aheadreadseeker state, whose logical offset is `pos`, over a source related to
+    its own position by `I` -/
+def AheadG (I : Rd → Nat → Prop) (data : List UInt8) (m : Nat) (s : Rd) (pos : Nat) : Prop :=
+  ∃ b p cache co, s = .ahead b m pos cache co ∧ I b p ∧ AheadInv data p pos cache co
 
 theorem slice_self_len (data : List UInt8) (p k : Nat) :
     slice data p (slice data p k).length = slice data p k := by
@@ -141,11 +148,15 @@ theorem step_ahead_seek (d : Nat) (b : Rd) (m off co : Nat) (c : List UInt8) (o 
   simp only [step]
 
 /-- Read on the ahead reader: EOF at the end of the data, otherwise 1..n bytes of the data at the offset -/
-theorem readsAt_ahead (d : Nat) (data : List UInt8) (f : Bool) (m : Nat) (hm : 0 < m) :
-    ReadsAt (step (d + 2)) data (AheadAt data f m) := by
-  intro s pos n hn ⟨p, cache, co, hs, hinv⟩
-  subst hs
-  rw [step_ahead_read]
+theorem readsAt_aheadG (sub : Sub) (data : List UInt8) (I : Rd → Nat → Prop) (hok : ByteOK sub data I) (m : Nat)
+    (hm : 0 < m) (s : Rd) (pos n : Nat) (hn : 0 < n) (hs : AheadG I data m s pos) :
+    ∃ b off c co, s = .ahead b m off c co ∧
+    ∃ s' r, aheadReadLoop sub m n 3 b off c co 0 = ok (s', r) ∧ r.q = 0 ∧
+      ((data.length ≤ pos ∧ r.bytes = [] ∧ r.err = some .eof ∧ AheadG I data m s' pos) ∨
+       (pos < data.length ∧ ∃ k, 0 < k ∧ k ≤ n ∧ r.bytes = slice data pos k ∧ pos + k ≤ data.length ∧
+          r.err = none ∧ AheadG I data m s' (pos + k))) := by
+  obtain ⟨b, p, cache, co, hs, hIb, hinv⟩ := hs
+  refine ⟨b, pos, cache, co, hs, ?_⟩
   unfold aheadReadLoop
   by_cases hit : pos ≥ co ∧ pos < co + cache.length
   · -- cache hit
@@ -161,7 +172,7 @@ theorem readsAt_ahead (d : Nat) (data : List UInt8) (f : Bool) (m : Nat) (hm : 0
         intro k; rw [← hc]
       rw [hc', slice_slice _ _ _ _ _ (by omega)]
       congr 1; omega
-    · exact ⟨p, cache, co, rfl, ⟨fun _ => ⟨hp, hc, by omega, by omega⟩, fun h => absurd h hne⟩⟩
+    · exact ⟨b, p, cache, co, rfl, hIb, ⟨fun _ => ⟨hp, hc, by omega, by omega⟩, fun h => absurd h hne⟩⟩
   · -- miss: the underlying reader stands at the offset
     simp only [hit, if_false]
     have hp : p = pos := by
@@ -171,7 +182,8 @@ theorem readsAt_ahead (d : Nat) (data : List UInt8) (f : Bool) (m : Nat) (hm : 0
         have : ¬ (pos < co + cache.length) := fun h => hit ⟨h1, h⟩
         omega
     subst hp
-    rw [ioReadFull_raw]
+    obtain ⟨b', hfull, hIb'⟩ := ioReadFull_gen sub data I hok.1 b p (max n m) hIb
+    rw [hfull]
     simp only [ok_bind, rawFullRes, Nat.zero_or]
     by_cases hD : (slice data p (max n m)).length = 0
     · have hnil : slice data p (max n m) = [] := List.eq_nil_of_length_eq_zero hD
@@ -180,7 +192,7 @@ theorem readsAt_ahead (d : Nat) (data : List UInt8) (f : Bool) (m : Nat) (hm : 0
       have hmx : ¬ (0 ≥ max n m) := by omega
       refine ⟨_, _, rfl, rfl, Or.inl ⟨hend, rfl, ?_, ?_⟩⟩
       · simp [hmx]
-      · exact ⟨p, [], p, rfl, ⟨fun h => absurd rfl h, fun _ => rfl⟩⟩
+      · exact ⟨b', p, [], p, rfl, by simpa [hD] using hIb', ⟨fun h => absurd rfl h, fun _ => rfl⟩⟩
     · simp only [hD, if_false]
       have hcond : ¬ (False ∨ (if (slice data p (max n m)).length ≥ max n m then none else some Err.unexpectedEOF) = some Err.eof) := by
         split <;> simp
@@ -193,31 +205,19 @@ theorem readsAt_ahead (d : Nat) (data : List UInt8) (f : Bool) (m : Nat) (hm : 0
       refine ⟨_, _, rfl, rfl, Or.inr ⟨hlt, min (slice data p (max n m)).length n, by omega, by omega, ?_, by omega, rfl, ?_⟩⟩
       · show slice (slice data p (max n m)) 0 _ = _
         rw [slice_slice _ _ _ _ _ (by omega)]; rfl
-      · refine ⟨_, _, _, rfl, ⟨fun _ => ⟨rfl, (slice_self_len data p _).symm, by omega, by omega⟩, fun h => ?_⟩⟩
+      · refine ⟨b', _, _, _, rfl, hIb', ⟨fun _ => ⟨rfl, (slice_self_len data p _).symm, by omega, by omega⟩, fun h => ?_⟩⟩
         exact absurd (congrArg List.length h) (by simpa using hD)
 
-/-- target of Seek(o, w) at byte position `pos` of a source of `len` bytes -/
-def seekTarget (len pos : Nat) (o : Int) (w : Whence) : Int :=
-  match w with
-  | .start => o
-  | .current => (pos : Int) + o
-  | .end_ => (len : Int) + o
+theorem seekRes_nonneg (T : Int) (h : 0 ≤ T) : seekRes T = { n := T } := by
+  simp [seekRes, show ¬ T < 0 by omega]
 
-/-- result of Seek on bytes.Reader -/
-def seekRes (T : Int) : Res := if T < 0 then { err := some .seek } else { n := T }
+theorem seekRes_neg (T : Int) (h : T < 0) : seekRes T = { err := some .seek } := by
+  simp [seekRes, h]
 
-theorem raw_seek (data : List UInt8) (p : Nat) (f : Bool) (o : Int) (w : Whence) :
-    rawStep data p f (.seekB o w) =
-      ok (.raw data (if seekTarget data.length p o w < 0 then p else (seekTarget data.length p o w).toNat) f,
-          seekRes (seekTarget data.length p o w)) := by
-  simp only [rawStep, seekTarget, seekRes]
-  cases w <;> simp only <;> split <;> simp [*]
-
-theorem seekTo_spec (d : Nat) (data : List UInt8) (f : Bool) (m p pos : Nat) (cache : List UInt8) (co : Nat)
-    (hinv : AheadInv data p pos cache co) (T : Int) (fromEnd : Bool) (hT : 0 ≤ T) (p' : Nat)
-    (hp' : p' = p ∨ fromEnd = true) :
-    ∃ s', aheadSeekTo (step (d + 1)) (.raw data p' f) m pos cache co T fromEnd 0 = ok (s', { n := T }) ∧
-      AheadAt data f m s' T.toNat := by
+theorem seekTo_specG (sub : Sub) (data : List UInt8) (I : Rd → Nat → Prop) (hok : ByteOK sub data I)
+    (m p pos : Nat) (cache : List UInt8) (co : Nat) (hinv : AheadInv data p pos cache co) (T : Int) (fromEnd : Bool)
+    (hT : 0 ≤ T) (b : Rd) (p' : Nat) (hIb : I b p') (hp' : p' = p ∨ fromEnd = true) :
+    ∃ s', aheadSeekTo sub b m pos cache co T fromEnd 0 = ok (s', { n := T }) ∧ AheadG I data m s' T.toNat := by
   unfold aheadSeekTo
   by_cases hit : T ≥ (co : Int) ∧ T < (co : Int) + cache.length
   · simp only [hit, and_self, if_true]
@@ -225,96 +225,135 @@ theorem seekTo_spec (d : Nat) (data : List UInt8) (f : Bool) (m p pos : Nat) (ca
     obtain ⟨hp, hc, h1, h2⟩ := hinv.1 hne
     cases fromEnd with
     | true =>
-      simp only [if_true, step_raw, raw_seek, ok_bind, seekTarget, seekRes]
+      obtain ⟨b', hsk, hIb'⟩ := hok.2 b p' ((co : Int) + cache.length) .start hIb
+      simp only [seekTarget] at hsk hIb'
+      rw [seekRes_nonneg _ (by omega)] at hsk
       have hnn : ¬ ((co : Int) + cache.length < 0) := by omega
-      simp only [hnn, if_false, Option.isSome_none, Bool.false_eq_true, Nat.zero_or]
-      exact ⟨_, rfl, ⟨_, cache, co, rfl, ⟨fun _ => ⟨by omega, hc, by omega, by omega⟩, fun h => absurd h hne⟩⟩⟩
+      simp only [hnn, if_false] at hIb'
+      simp only [if_true, hsk, ok_bind, Option.isSome_none, Bool.false_eq_true, if_false, Nat.zero_or]
+      exact ⟨_, rfl, ⟨b', _, cache, co, rfl, hIb', ⟨fun _ => ⟨by omega, hc, by omega, by omega⟩, fun h => absurd h hne⟩⟩⟩
     | false =>
       simp only [Bool.false_eq_true, if_false]
       have : p' = p := by rcases hp' with h | h; exact h; simp at h
       subst this
-      exact ⟨_, rfl, ⟨_, cache, co, rfl, ⟨fun _ => ⟨hp, hc, by omega, by omega⟩, fun h => absurd h hne⟩⟩⟩
-  · simp only [hit, if_false, step_raw, raw_seek, ok_bind, seekTarget, seekRes]
+      exact ⟨_, rfl, ⟨b, p', cache, co, rfl, hIb, ⟨fun _ => ⟨hp, hc, by omega, by omega⟩, fun h => absurd h hne⟩⟩⟩
+  · obtain ⟨b', hsk, hIb'⟩ := hok.2 b p' T .start hIb
+    simp only [seekTarget] at hsk hIb'
+    rw [seekRes_nonneg _ hT] at hsk
     have hnn : ¬ (T < 0) := by omega
-    simp only [hnn, if_false, Option.isSome_none, Bool.false_eq_true, Nat.zero_or]
-    exact ⟨_, rfl, ⟨_, [], 0, rfl, ⟨fun h => absurd rfl h, fun _ => rfl⟩⟩⟩
+    simp only [hnn, if_false] at hIb'
+    simp only [hit, if_false, hsk, ok_bind, Option.isSome_none, Bool.false_eq_true, Nat.zero_or]
+    exact ⟨_, rfl, ⟨b', _, [], 0, rfl, hIb', ⟨fun h => absurd rfl h, fun _ => rfl⟩⟩⟩
 
-theorem seekTo_neg (d : Nat) (data : List UInt8) (f : Bool) (m p pos : Nat) (cache : List UInt8) (co : Nat)
-    (T : Int) (hT : T < 0) :
-    aheadSeekTo (step (d + 1)) (.raw data p f) m pos cache co T false 0
-      = ok (.ahead (.raw data p f) m pos cache co, { err := some .seek }) := by
+theorem seekTo_negG (sub : Sub) (data : List UInt8) (I : Rd → Nat → Prop) (hok : ByteOK sub data I)
+    (m p pos : Nat) (cache : List UInt8) (co : Nat) (T : Int) (hT : T < 0) (b : Rd) (hIb : I b p) :
+    ∃ b', aheadSeekTo sub b m pos cache co T false 0 = ok (.ahead b' m pos cache co, { err := some .seek }) ∧ I b' p := by
   unfold aheadSeekTo
   have hit : ¬ (T ≥ (co : Int) ∧ T < (co : Int) + cache.length) := by omega
-  simp only [hit, if_false, step_raw, raw_seek, ok_bind, seekTarget, seekRes, hT, if_true]
-  simp
+  obtain ⟨b', hsk, hIb'⟩ := hok.2 b p T .start hIb
+  simp only [seekTarget] at hsk hIb'
+  rw [seekRes_neg _ hT] at hsk
+  simp only [hT, if_true] at hIb'
+  simp only [hit, if_false, hsk, ok_bind, Option.isSome_some, if_true, Nat.zero_or]
+  exact ⟨b', rfl, hIb'⟩
 
 /-- Seek on the ahead reader = Seek on bytes.Reader (result and new logical offset) -/
-theorem ahead_seek (d : Nat) (data : List UInt8) (f : Bool) (m : Nat) (s : Rd) (pos : Nat)
-    (h : AheadAt data f m s pos) (o : Int) (w : Whence) :
-    ∃ s', step (d + 2) s (.seekB o w) = ok (s', seekRes (seekTarget data.length pos o w)) ∧
-      AheadAt data f m s' (if seekTarget data.length pos o w < 0 then pos else (seekTarget data.length pos o w).toNat) := by
-  obtain ⟨p, cache, co, hs, hinv⟩ := h
-  subst hs
-  rw [step_ahead_seek]
+theorem seek_aheadG (sub : Sub) (data : List UInt8) (I : Rd → Nat → Prop) (hok : ByteOK sub data I) (m : Nat)
+    (s : Rd) (pos : Nat) (hs : AheadG I data m s pos) (o : Int) (w : Whence) :
+    ∃ b off c co, s = .ahead b m off c co ∧
+    ∃ s', aheadSeek sub b m off c co o w = ok (s', seekRes (seekTarget data.length pos o w)) ∧
+      AheadG I data m s' (if seekTarget data.length pos o w < 0 then pos else (seekTarget data.length pos o w).toNat) := by
+  obtain ⟨b, p, cache, co, hs, hIb, hinv⟩ := hs
+  refine ⟨b, pos, cache, co, hs, ?_⟩
   unfold aheadSeek
   cases w with
   | start =>
     simp only [seekTarget]
     by_cases hT : o < 0
-    · rw [seekTo_neg _ _ _ _ _ _ _ _ _ hT]
-      simp only [seekRes, hT, if_true]
-      exact ⟨_, rfl, ⟨p, cache, co, rfl, hinv⟩⟩
-    · obtain ⟨s', h1, h2⟩ := seekTo_spec d data f m p pos cache co hinv o false (by omega) p (Or.inl rfl)
-      simp only [seekRes, hT, if_false]
+    · obtain ⟨b', h1, h2⟩ := seekTo_negG sub data I hok m p pos cache co o hT b hIb
+      rw [h1, seekRes_neg _ hT]
+      simp only [hT, if_true]
+      exact ⟨_, rfl, ⟨b', p, cache, co, rfl, h2, hinv⟩⟩
+    · obtain ⟨s', h1, h2⟩ := seekTo_specG sub data I hok m p pos cache co hinv o false (by omega) b p hIb (Or.inl rfl)
+      rw [seekRes_nonneg _ (by omega)]
+      simp only [hT, if_false]
       exact ⟨s', h1, h2⟩
   | current =>
     simp only [seekTarget]
     by_cases hT : (pos : Int) + o < 0
-    · rw [seekTo_neg _ _ _ _ _ _ _ _ _ hT]
-      simp only [seekRes, hT, if_true]
-      exact ⟨_, rfl, ⟨p, cache, co, rfl, hinv⟩⟩
-    · obtain ⟨s', h1, h2⟩ := seekTo_spec d data f m p pos cache co hinv ((pos : Int) + o) false (by omega) p (Or.inl rfl)
-      simp only [seekRes, hT, if_false]
+    · obtain ⟨b', h1, h2⟩ := seekTo_negG sub data I hok m p pos cache co ((pos : Int) + o) hT b hIb
+      rw [h1, seekRes_neg _ hT]
+      simp only [hT, if_true]
+      exact ⟨_, rfl, ⟨b', p, cache, co, rfl, h2, hinv⟩⟩
+    · obtain ⟨s', h1, h2⟩ := seekTo_specG sub data I hok m p pos cache co hinv ((pos : Int) + o) false (by omega) b p hIb (Or.inl rfl)
+      rw [seekRes_nonneg _ (by omega)]
+      simp only [hT, if_false]
       exact ⟨s', h1, h2⟩
   | end_ =>
-    simp only [seekTarget, step_raw, raw_seek, ok_bind, seekRes]
+    obtain ⟨b', hsk, hIb'⟩ := hok.2 b p o .end_ hIb
+    simp only [seekTarget] at hsk hIb' ⊢
     by_cases hT : (data.length : Int) + o < 0
-    · simp only [hT, if_true, Option.isSome_some]
-      exact ⟨_, rfl, ⟨p, cache, co, rfl, hinv⟩⟩
-    · simp only [hT, if_false, Option.isSome_none, Bool.false_eq_true]
-      obtain ⟨s', h1, h2⟩ := seekTo_spec d data f m p pos cache co hinv ((data.length : Int) + o) true (by omega)
-        ((data.length : Int) + o).toNat (Or.inr rfl)
+    · rw [seekRes_neg _ hT] at hsk
+      simp only [hT, if_true] at hIb' ⊢
+      simp only [hsk, ok_bind, Option.isSome_some, if_true, seekRes_neg _ hT]
+      exact ⟨_, rfl, ⟨b', p, cache, co, rfl, hIb', hinv⟩⟩
+    · rw [seekRes_nonneg _ (by omega)] at hsk
+      simp only [hT, if_false] at hIb' ⊢
+      simp only [hsk, ok_bind, Option.isSome_none, Bool.false_eq_true, if_false, seekRes_nonneg _ (show 0 ≤ (data.length : Int) + o by omega)]
+      obtain ⟨s', h1, h2⟩ := seekTo_specG sub data I hok m p pos cache co hinv ((data.length : Int) + o) true (by omega) b' _ hIb' (Or.inr rfl)
       exact ⟨s', h1, h2⟩
 
-theorem runBytes_ahead_eq (d : Nat) (data : List UInt8) (f : Bool) (m : Nat) (hm : 0 < m) :
-    ∀ (ops : List BOp) (s : Rd) (pos : Nat), AheadAt data f m s pos →
-      runBytes (d + 2) s ops = runBytes (d + 2) (.raw data pos false) ops := by
+/-- aheadreadseeker over any io.ReadSeeker-like source is again one (over the same data) -/
+theorem byteOK_ahead (d : Nat) (data : List UInt8) (I : Rd → Nat → Prop) (hok : ByteOK (step d) data I) (m : Nat)
+    (hm : 0 < m) : ByteOK (step (d + 1)) data (AheadG I data m) := by
+  refine ⟨?_, ?_⟩
+  · intro s pos n hn hs
+    obtain ⟨b, off, c, co, hs', s', r, h1, h2⟩ := readsAt_aheadG (step d) data I hok m hm s pos n hn hs
+    subst hs'
+    rw [step_ahead_read]
+    exact ⟨s', r, h1, h2⟩
+  · intro s pos o w hs
+    obtain ⟨b, off, c, co, hs', s', h1, h2⟩ := seek_aheadG (step d) data I hok m s pos hs o w
+    subst hs'
+    rw [step_ahead_seek]
+    exact ⟨s', h1, h2⟩
+
+/-! ### two io.ReadSeeker-like sources over the same data are indistinguishable by io.ReadFull / Seek histories -/
+
+theorem runBytes_eq (d1 d2 : Nat) (data : List UInt8) (I1 I2 : Rd → Nat → Prop) (h1 : ByteOK (step d1) data I1)
+    (h2 : ByteOK (step d2) data I2) : ∀ (ops : List BOp) (s1 s2 : Rd) (pos : Nat), I1 s1 pos → I2 s2 pos →
+      runBytes d1 s1 ops = runBytes d2 s2 ops := by
   intro ops
   induction ops with
-  | nil => intro s pos _; rfl
+  | nil => intro _ _ _ _ _; rfl
   | cons op ops ih =>
-    intro s pos hs
+    intro s1 s2 pos hs1 hs2
     cases op with
     | readFull n =>
-      obtain ⟨s', h1, h2⟩ := ioReadFullLoop_spec _ data _ (readsAt_ahead d data f m hm) pos n (n + 2) s [] 0
-        (by simp [slice]) (by simp) (by simp) (by simpa using hs)
-      simp only [runBytes]
-      rw [show ioReadFull (step (d + 2)) s n = ok (s', rawFullRes data pos n 0) from h1, ioReadFull_raw]
-      simp only
-      rw [ih s' _ h2]
+      obtain ⟨s1', e1, i1⟩ := ioReadFull_gen (step d1) data I1 h1.1 s1 pos n hs1
+      obtain ⟨s2', e2, i2⟩ := ioReadFull_gen (step d2) data I2 h2.1 s2 pos n hs2
+      simp only [runBytes, e1, e2]
+      rw [ih s1' s2' _ i1 i2]
     | seek o w =>
-      obtain ⟨s', h1, h2⟩ := ahead_seek d data f m s pos hs o w
-      simp only [runBytes]
-      rw [h1, step_raw, raw_seek]
-      simp only
-      rw [ih s' _ h2]
+      obtain ⟨s1', e1, i1⟩ := h1.2 s1 pos o w hs1
+      obtain ⟨s2', e2, i2⟩ := h2.2 s2 pos o w hs2
+      simp only [runBytes, e1, e2]
+      rw [ih s1' s2' _ i1 i2]
+
+/-- aheadreadseeker over bytes.Reader / file -/
+def AheadAt (data : List UInt8) (f : Bool) (m : Nat) : Rd → Nat → Prop :=
+  AheadG (fun s p => s = .raw data p f) data m
+
+theorem readsAt_ahead (d : Nat) (data : List UInt8) (f : Bool) (m : Nat) (hm : 0 < m) :
+    ReadsAt (step (d + 2)) data (AheadAt data f m) :=
+  (byteOK_ahead (d + 1) data _ (byteOK_raw d data f) m hm).1
 
 theorem ahead_refines' (data : List UInt8) (f : Bool) (m : Nat) (hm : 0 < m) (ops : List BOp) :
     runAhead data f m ops = runBytesReader data ops := by
   unfold runAhead runBytesReader initAhead
   have : depthFuel = 30 + 2 := rfl
   rw [this]
-  exact runBytes_ahead_eq 30 data f m hm ops _ 0
-    ⟨0, [], 0, rfl, ⟨fun h => absurd rfl h, fun _ => rfl⟩⟩
+  exact runBytes_eq (30 + 2) (30 + 2) data _ _ (byteOK_ahead 31 data _ (byteOK_raw 30 data f) m hm) (byteOK_raw 31 data false)
+    ops _ _ 0 ⟨.raw data 0 f, 0, [], 0, rfl, rfl, ⟨fun h => absurd rfl h, fun _ => rfl⟩⟩ rfl
 
 end Proofs.C01
